@@ -64,6 +64,7 @@ def generate(rng, i):
     script = []
     length = rng.randint(3, 30) if rng.random() < 0.9 else rng.randint(31, 150)
     via_notify = rng.random() < 0.5
+    last = {}
     for _ in range(length):
         r = rng.random()
         k = rng.randrange(n)
@@ -76,6 +77,11 @@ def generate(rng, i):
                 bid = NAN
             if rng.random() < 0.05:
                 ask = NAN
+            if k in last and rng.random() < 0.15:
+                bid, ask = last[k]          # duplicated quote: still appended to the history
+                if rng.random() < 0.5:
+                    ask = ask * 1.01
+            last[k] = (bid, ask)
             script.append({"op": "quote", "k": k, "bid": bid, "ask": ask, "t": core.iso(t)})
         elif r < 0.57:
             script.append({"op": "disc", "k": k, "t": core.iso(t)})
